@@ -6,6 +6,7 @@ import ast
 
 from sa.cfg import CFG
 from sa.cfg import forward
+from sa.report import AnalysisError
 from sa.report import Result
 from sa.report import norm
 from sa.srcmodel import Program
@@ -336,3 +337,130 @@ def check_buffer_factories_fresh(prog: Program, res: Result, rule: str) -> None:
                 else:
                     res.fail(rule, file=mod.relpath, line=c.lineno, qualname=q, construct=f"NullIO() in {q}", message=f"{q} builds a discarding buffer outside BlockNode's blank-block suppression: whatever is rendered into it is lost", what=what)
     res.floor(rule, "NullIO constructions", n_null, 2)
+
+
+def check_cache_hit_environment(prog: Program, res: Result, rule: str) -> None:
+    """A cached template is returned as a hit only to the Environment it was parsed for - unconditionally (C14.R5 = C04.S5).
+
+    `RenderContext.auto_escape`, the filter and tag registries and the undefined policy are all read from `template.env`, so a template
+    handed to another environment renders with the first one's settings. The hit return must lie on the false edge of a test one of whose
+    *top-level* disjuncts is `<cached>.env is not env` (a disjunct nested under `auto_reload and (...)` is skipped when auto_reload is off)."""
+    from sa.util import guarded_by_test
+
+    mixin = prog.cls("liquid2.builtin.loaders.mixins.CachingLoaderMixin")
+    for fname in ("_check_cache", "_check_cache_async"):
+        f = mixin.methods.get(fname)
+        if f is None:
+            raise AnalysisError(f"CachingLoaderMixin.{fname} vanished")
+        cfg = CFG(f.node)
+        cached_names = {t.id for n in ast.walk(f.node) if isinstance(n, ast.Assign) and isinstance(n.value, ast.Subscript) and norm(n.value.value) == "self.cache" for t in n.targets if isinstance(t, ast.Name)}
+        if len(cached_names) != 1:
+            raise AnalysisError(f"{fname}: the cache lookup is not a single `x = self.cache[key]`")
+        cached = next(iter(cached_names))
+        hits = [n for n in cfg.nodes if n.kind == "stmt" and isinstance(n.node, ast.Return) and isinstance(n.node.value, ast.Name) and n.node.value.id == cached]
+        res.floor(rule, f"hit returns in {fname}", len(hits), 1)
+
+        def env_guard(test: ast.AST, cached: str = cached) -> bool | None:
+            disj = test.values if isinstance(test, ast.BoolOp) and isinstance(test.op, ast.Or) else [test]
+            for d in disj:
+                if norm(d) in (f"{cached}.env is not env", f"{cached}.env != env", f"env is not {cached}.env"):
+                    return True  # another environment on the true edge
+            if norm(test) in (f"{cached}.env is env", f"{cached}.env == env"):
+                return False
+            return None
+
+        for r in hits:
+            site = f"{f.file}:{r.line} CachingLoaderMixin.{fname}"
+            what = f"`return {cached}` only when the cached template is bound to the requesting environment"
+            if guarded_by_test(cfg, r, env_guard) is not None:
+                res.ok(rule, site, what, f"hit only on the false edge of a test with the top-level disjunct `{cached}.env is not env`")
+            else:
+                res.fail(rule, file=f.file, line=r.line, qualname=f"CachingLoaderMixin.{fname}", construct=f"return {cached} without an unconditional comparison of its environment", message="a cache hit can be returned to an Environment other than the one the template was parsed for (the comparison is missing or sits under another condition such as auto_reload): the template then renders with the first environment's auto_escape setting, filters, tags and undefined type", what=what)
+
+
+def check_presence_by_key(prog: Program, res: Result, rule: str) -> None:
+    """Variable lookup decides 'missing' from the failed key lookup, never from the looked-up value (C16.R6 = C01.R8): a name bound to
+    nil/false/0/'' exists - it shadows an outer binding of the same name and is not undefined."""
+    ctx = prog.cls("liquid2.context.RenderContext")
+    look_fns = []
+    cm = prog.cls("liquid2.utils.chainmap.ReadOnlyChainMap")
+    for nm in ("__getitem__", "get"):
+        if nm in cm.methods:
+            look_fns.append(cm.methods[nm])
+    for nm in ("get", "get_async", "resolve", "get_item", "get_item_async"):
+        if nm in ctx.methods:
+            look_fns.append(ctx.methods[nm])
+    res.floor(rule, "lookup functions", len(look_fns), 6)
+    n_lk = 0
+    for f in look_fns:
+        # names bound from a lookup expression
+        looked: dict[str, ast.AST] = {}
+        for n in ast.walk(f.node):
+            if isinstance(n, ast.Assign) and len(n.targets) == 1 and isinstance(n.targets[0], ast.Name):
+                v = n.value.value if isinstance(n.value, ast.Await) else n.value
+                is_lookup = (isinstance(v, ast.Subscript) and not isinstance(v.slice, ast.Slice)) or (isinstance(v, ast.Call) and isinstance(v.func, ast.Attribute) and v.func.attr in ("get", "get_item", "get_item_async", "pop")) or (isinstance(v, ast.Call) and isinstance(v.func, ast.Name) and v.func.id in ("getitem", "getattr"))
+                if is_lookup:
+                    looked[n.targets[0].id] = v
+                    n_lk += 1
+        for v, src in looked.items():
+            sentinel = None
+            if isinstance(src, ast.Call) and len(src.args) >= 2 and not (isinstance(src.args[1], ast.Constant) and src.args[1].value is None):
+                sentinel = norm(src.args[1])
+            for t in ast.walk(f.node):
+                test = t.test if isinstance(t, (ast.If, ast.IfExp, ast.While)) else None
+                if test is None:
+                    continue
+                bad = None
+                for x in ast.walk(test):
+                    if isinstance(x, ast.Compare) and isinstance(x.left, ast.Name) and x.left.id == v and isinstance(x.ops[0], (ast.Is, ast.IsNot, ast.Eq, ast.NotEq)):
+                        rhs = x.comparators[0]
+                        if sentinel is not None and norm(rhs) == sentinel:
+                            continue
+                        if isinstance(rhs, ast.Constant) and (rhs.value is None or rhs.value in (False, 0, "")):
+                            bad = norm(x)
+                if bad is None and ((isinstance(test, ast.Name) and test.id == v) or (isinstance(test, ast.UnaryOp) and isinstance(test.op, ast.Not) and isinstance(test.operand, ast.Name) and test.operand.id == v)):
+                    bad = norm(test)
+                if bad:
+                    res.fail(rule, file=f.file, line=t.lineno, qualname=f.qualname, construct=f"{f.qualname}: `{bad}` on the looked-up value {v}", message=f"{f.qualname} tests the looked-up value (`{bad}`) to decide whether the key exists: a variable whose value is nil/false/0/'' is treated as missing and strict undefined raises for data that is present", what=f"{f.qualname}: existence of `{v}` decided by the lookup, not its value")
+        res.ok(rule, f"{f.file}:{f.node.lineno} {f.qualname}", f"{f.qualname}: no existence test on a looked-up value", f"{len(looked)} looked-up names")
+    res.floor(rule, "lookup results bound to names", n_lk, 2)
+
+
+def check_unconditional_contributions(prog: Program, res: Result, rule: str) -> None:
+    """In children()/expressions() a child is handed to the traversals under no condition other than its own presence: a contribution of
+    `self.A` may sit under tests that mention `self.A` (or only parameters such as include_partials), never under a test on another
+    attribute `self.B` - otherwise the child is rendered at run time but skipped by analysis/extraction whenever B is absent."""
+    bases = [prog.cls("liquid2.ast.Node"), prog.cls("liquid2.expression.Expression")]
+    n = 0
+    for fi in sorted(prog.all_functions(), key=lambda f: (f.file, f.node.lineno)):
+        if fi.cls is None or fi.name not in ("children", "children_async", "expressions") or not any(prog.is_subclass(fi.cls, b) for b in bases):
+            continue
+        for node in ast.walk(fi.node):
+            contributed: list[ast.AST] = []
+            if isinstance(node, (ast.Yield, ast.YieldFrom)) and node.value is not None:
+                contributed = [node.value]
+            elif isinstance(node, ast.Call) and isinstance(node.func, ast.Attribute) and node.func.attr in ("append", "extend") and node.args:
+                contributed = [node.args[0]]
+            for v in contributed:
+                attrs = {x.attr for x in ast.walk(v) if isinstance(x, ast.Attribute) and isinstance(x.value, ast.Name) and x.value.id == "self"}
+                if not attrs:
+                    continue
+                n += 1
+                foreign = None
+                child: ast.AST = node
+                for a in fi.module.ancestors(node):
+                    if a is fi.node:
+                        break
+                    if isinstance(a, ast.If) and (any(child is x for b in a.body for x in ast.walk(b)) or any(child is x for b in a.orelse for x in ast.walk(b))):
+                        tested = {x.attr for x in ast.walk(a.test) if isinstance(x, ast.Attribute) and isinstance(x.value, ast.Name) and x.value.id == "self"}
+                        if tested and not (tested & attrs):
+                            foreign = (a, tested)
+                            break
+                    child = a
+                what = f"{fi.qualname}: contribution of self.{sorted(attrs)[0]} is not conditional on another attribute"
+                if foreign is None:
+                    res.ok(rule, f"{fi.file}:{getattr(node, 'lineno', 0)} {fi.qualname}", what, "under its own presence test at most")
+                else:
+                    a, tested = foreign
+                    res.fail(rule, file=fi.file, line=getattr(node, "lineno", a.lineno), qualname=fi.qualname, construct=f"{fi.qualname}: self.{sorted(attrs)[0]} contributed only under a test of self.{sorted(tested)[0]}", message=f"{fi.qualname} hands `{norm(v, 40)}` to the traversals only when `{norm(a.test, 40)}` holds - a condition on a different attribute: when it is false the child is still rendered at run time but static analysis and message extraction never see it", what=what)
+    res.floor(rule, "child contributions in children()/expressions()", n, 40)
